@@ -316,6 +316,9 @@ func c27(r *vkit.Run) {
 		if resp.Status == 500 && c.Status != 500 && len(http1.Get(resp.Fields, "X-Case")) == 0 {
 			// bfe's own error page (e.g. the backend connection failed): well-formed, but not the case's response
 			r.Count("bfe_error_page_instead_of_case_response", 1)
+			if c.Stream != nil {
+				r.Count("stream_bfe_error_page_instead_of_case_response", 1)
+			}
 			continue
 		}
 		if resp.Status != c.Status {
